@@ -521,6 +521,37 @@ def check_init(rep: Report, ix, clf: Classifier) -> None:
             )
     rep.oblige("init:length-check", not any(x.rule == "C20.init-length-check" for x in rep.findings))
     rep.floor("normally returning paths of MemoryStorage.__init__", n, 2)
+    # the list of time stamps is the storage's own object: derived storages (extract_field, from_collection) are built
+    # from `self.times` of their source, whose list keeps growing when the source is written again
+    ps = param_names(f.node)
+    if "times" not in ps:
+        raise AnalysisError(f"{f.ref}: parameter `times` vanished")
+    n_t = 0
+    shared = []
+    for p in enum_paths(f):
+        if not p.normal:
+            continue
+        ws = writes_of(p, clf, f)
+        rb = [w for k, w in list_mutations(ws, "self.times") if k == "rebind" and w.value is not None]
+        if not rb:
+            continue
+        w = rb[-1]
+        n_t += 1
+        v = clf.classify(w.value, p, w.idx, f)
+        if v.kind == "UNKNOWN":
+            raise AnalysisError(f"{f.ref}: cannot classify the value stored in self.times: `{ast.unparse(w.value)}` ({v.why})")
+        if not v.fresh:
+            shared.append((ast.unparse(expand(w.value, p, w.idx)), v.show(), w.node.lineno))
+    rep.oblige("init:times-list-is-own-object (fresh list on every path)", not shared, shared[:2])
+    for src, how, line in shared[:1]:
+        rep.violation(
+            "C20.init-owns-times",
+            f"{f.ref}::times-list",
+            f"on some path self.times is bound to `{src}` ({how}), the caller's list object itself: storages derived with extract_field / from_collection are handed the `times` list of their "
+            "source, so appending to the source later gives the derived storage more time stamps than frames (len() wrong, reading raises IndexError)",
+            line=line,
+        )
+    rep.floor("paths of MemoryStorage.__init__ that bind self.times", n_t, 2)
 
 
 def check_derived(rep: Report, ix, mem: ClassInfo, clf: Classifier) -> None:
